@@ -188,10 +188,15 @@ def check_validators(ctx):
         prod_a = f"[CH3:1][C:2](=[O:3])[{het}{hs}:6]{''.join(reversed(__import__('re').findall(r'\[[^\]]*\]', tail)))}.[OH2:4]"
         prod_b = prod_a.replace("[O:3]", "[O:_]").replace("[OH2:4]", "[OH2:3]").replace("[O:_]", "[O:4]")
         recs.append({"ground_truth": left + ">>" + prod_a, "m1": left + ">>" + prod_b, "m2": left + ">>" + prod_a})
-    for method in ("RC", "ITS"):
-        for ign in (True, False):
-            base = [[AAMValidator.check_pair(m, col, "ground_truth", method, False, ign) for m in recs] for col in ("m1", "m2")]
-            for nj in (1, 2, 4):
+    # tautomer enumeration is expensive on large mixtures: the ignore_tautomers=False runs use the small records only
+    small = [m for m in recs if len(m["ground_truth"]) < 160]
+    recs_by_flag = {True: recs, False: small}
+    bases = {(method, ign): [[AAMValidator.check_pair(m, col, "ground_truth", method, False, ign) for m in recs_by_flag[ign]] for col in ("m1", "m2")]
+             for method in ("RC", "ITS") for ign in (True, False)}
+    for nj in (1, 2, 4):  # worker count outermost: joblib re-uses its executor while n_jobs stays the same
+        for (method, ign), base in bases.items():
+            recs = recs_by_flag[ign]
+            if True:
                 out = AAMValidator.validate_smiles(recs, "ground_truth", ["m1", "m2"], method, False, nj, 0, ign)
                 ctx.count("validate_smiles_compared")
                 got = [o["results"] for o in out]
@@ -298,10 +303,17 @@ def run(ctx):
             check_batch(ctx, ents, rules, cfg, "batches of small and corpus substrates")
     # one long look-alike batch with the real id(): graphs are created and dropped -> address reuse pressure
     long_entries = [rng.choice(SUBSTRATES[:8]) for _ in range(150 if ctx.quick else 1500)]
+    import time
+    t0 = time.time()
+    ctx.notes.append(f"batches done at {ctx.elapsed():.0f}s")
     check_batch(ctx, long_entries, RULES_IMPLICIT[:2], {"cache_enabled": True, "cache_maxsize": 4, "refit": True}, "long look-alike batch (real id)")
+    ctx.notes.append(f"long batch {time.time() - t0:.0f}s"); t0 = time.time()
     check_validators(ctx)
+    ctx.notes.append(f"validators {time.time() - t0:.0f}s"); t0 = time.time()
     check_cluster_batches(ctx)
+    ctx.notes.append(f"cluster {time.time() - t0:.0f}s"); t0 = time.time()
     check_syncrn(ctx)
+    ctx.notes.append(f"syncrn {time.time() - t0:.0f}s")
 
 
 def replay(ctx, v):
